@@ -15,6 +15,8 @@ import (
 	"github.com/IrineSistiana/mosdns/v5/pkg/query_context"
 	"github.com/IrineSistiana/mosdns/v5/pkg/server_handler"
 	"github.com/IrineSistiana/mosdns/v5/plugin/executable/cache"
+	_ "github.com/IrineSistiana/mosdns/v5/plugin/executable/drop_resp"
+	_ "github.com/IrineSistiana/mosdns/v5/plugin/executable/dual_selector"
 	"github.com/IrineSistiana/mosdns/v5/plugin/executable/ecs_handler"
 	fastforward "github.com/IrineSistiana/mosdns/v5/plugin/executable/forward"
 	_ "github.com/IrineSistiana/mosdns/v5/plugin/executable/forward_edns0opt"
@@ -49,8 +51,50 @@ type caseRun struct {
 	hitRBytes      []byte // that response packed as it stood
 	hitUpOptNonNil bool   // UpstreamOpt() != nil while a cached response was installed
 	termErr        string
-	injectedFg     bool // $inject appended an OPT to R() in the foreground execution
+	injectedFg     bool   // $inject appended an OPT to R() in the foreground execution
+	cancel         func() // cancels the context handed to Handle ("client gave up")
+	failSeen       string // scripted failure mode the foreground terminal went through
+	events         map[string]chan struct{}
+	exch           []exchange // branch family: every upstream exchange of this case
 }
+
+// signal / wait: logical events inside one case (no wall clock involved).
+func (cr *caseRun) ev(name string) chan struct{} {
+	cr.mu.Lock()
+	defer cr.mu.Unlock()
+	if cr.events == nil {
+		cr.events = map[string]chan struct{}{}
+	}
+	ch := cr.events[name]
+	if ch == nil {
+		ch = make(chan struct{})
+		cr.events[name] = ch
+	}
+	return ch
+}
+
+func (cr *caseRun) signal(name string) {
+	ch := cr.ev(name)
+	cr.mu.Lock()
+	select {
+	case <-ch:
+	default:
+		close(ch)
+	}
+	cr.mu.Unlock()
+}
+
+// wait returns false if ctx ended first (watchdog; counted, never a verdict).
+func (cr *caseRun) wait(ctx context.Context, name string) bool {
+	select {
+	case <-cr.ev(name):
+		return true
+	case <-ctx.Done():
+		return false
+	}
+}
+
+var errScripted = errors.New("harness: scripted upstream failure")
 
 func (cr *caseRun) addUp(e upEvent) {
 	cr.mu.Lock()
@@ -75,6 +119,7 @@ type chainRun struct {
 	wg     sync.WaitGroup
 
 	bgEvents atomic.Int64
+	xseq     atomic.Int64 // branch family: upstream exchange counter
 }
 
 // probe is the first element of every chain: it ties the query context id to
@@ -139,6 +184,25 @@ func (t *term) Exec(ctx context.Context, qCtx *query_context.Context) error {
 		run.addUp(ev)
 		t.cr.checkUp(run, &ev)
 		return fmt.Errorf("harness upstream cannot parse query: %w", perr)
+	}
+	if f := run.c.Up.Fail; f != "" {
+		run.addUp(ev)
+		t.cr.checkUp(run, &ev)
+		if !bg {
+			run.mu.Lock()
+			run.failSeen = f
+			run.mu.Unlock()
+		}
+		switch {
+		case f == "noresp":
+			return nil
+		case f == "timeout" && !bg && run.cancel != nil:
+			run.cancel() // the client's context ends while the upstream is silent
+			<-ctx.Done()
+			return context.Cause(ctx)
+		default:
+			return errScripted
+		}
 	}
 	ev.Reply = run.c.replyBytes(uq)
 	r := new(dns.Msg)
@@ -308,6 +372,10 @@ func buildChain(desc *chainDesc) (*chainRun, error) {
 				return err
 			}
 			e.Rule = "$" + e.Tag
+		case "drop_resp_aaaa":
+			e.Rule = "[qtype 28] drop_resp"
+			rules = append(rules, sequence.RuleArgs{Matches: []string{"qtype 28"}, Exec: "drop_resp"})
+			return nil
 		case "reject_txt":
 			e.Rule = "[qtype 16] reject 5"
 			rules = append(rules, sequence.RuleArgs{Matches: []string{"qtype 16"}, Exec: "reject 5"})
